@@ -513,6 +513,17 @@ func (x *Exec) appendB(st *State, fr *Frame, args []Value, in *ssa.Call) Value {
 	for k := uint64(0); k < cnt; k++ {
 		vals = append(vals, addAt(Const(64, k)))
 	}
+	if old.Obj != nil && old.Obj.Owned && old.Off.IsConst() && old.Off.Val == 0 && len(old.Base) == 0 {
+		// the slice came out of an earlier append and is extended in place (linear use of append results:
+		// `s = append(s, ...)`; a stale copy of the old slice is assumed not to be used afterwards)
+		content := x.heapGet(st, old.Obj)
+		for k := uint64(0); k < cnt; k++ {
+			content = x.setPath(content, []PathElem{{Field: -1, Idx: bin("bvadd", old.Len, Const(64, k))}}, vals[k])
+		}
+		st.Heap[old.Obj.ID] = content
+		n := bin("bvadd", old.Len, Const(64, cnt))
+		return SliceV{Obj: old.Obj, Off: Const(64, 0), Len: n, Cap: Ite(cmp("bvult", old.Cap, n), n, old.Cap)}
+	}
 	// fresh backing := old contents (rebased to offset 0) then the new elements
 	var content Value
 	if old.Obj == nil {
@@ -569,6 +580,7 @@ func (x *Exec) appendB(st *State, fr *Frame, args []Value, in *ssa.Call) Value {
 		content = x.setPath(content, []PathElem{{Field: -1, Idx: bin("bvadd", old.Len, Const(64, k))}}, vals[k])
 	}
 	o := x.newObj(types.NewArray(et, 1<<40), "append#backing")
+	o.Owned = true
 	st.Heap[o.ID] = content
 	n := bin("bvadd", old.Len, Const(64, cnt))
 	c := x.freshVar("appendcap", BV(64))
@@ -590,6 +602,10 @@ func (x *Exec) external(st *State, fn *ssa.Function, args []Value, site string) 
 		return ret(StrV{x.freshVar("sprintf", StrS)})
 	case name == "log.Println" || name == "log.Printf" || name == "fmt.Printf" || name == "fmt.Println":
 		return ret(TupleV{})
+	case name == "fmt.Fprintf" || name == "fmt.Fprint" || name == "fmt.Fprintln":
+		// trusted: formats its arguments and writes only to w (an event on the writer); rendered text not modelled
+		st.Events = append(st.Events, Event{Guard: True(), Callee: name, Args: []*Term{x.refOf(args[0])}})
+		return ret(TupleV{E: []Value{Scalar{x.freshVar("fprintf_n", BV(64))}, RefV{x.freshVar("fprintf_err", BV(32))}}})
 	case strings.HasSuffix(name, ".init"):
 		return ret(TupleV{})
 	case name == "(*strings.Builder).WriteString":
@@ -624,6 +640,7 @@ func (x *Exec) external(st *State, fn *ssa.Function, args []Value, site string) 
 		k := x.freshVar("appendint_n", BV(64))
 		st.Assume = append(st.Assume, cmp("bvule", Const(64, 1), k), cmp("bvule", k, Const(64, 20)))
 		o := x.newObj(types.NewArray(types.Typ[types.Uint8], 1<<40), "appendint#backing")
+		o.Owned = true
 		st.Heap[o.ID] = ArrayT{T: x.freshVar("appendint_arr", ArrS(BV(64), BV(8))), Len: 1 << 40, Elem: types.Typ[types.Uint8]}
 		n := bin("bvadd", old.Len, k)
 		return ret(SliceV{Obj: o, Off: Const(64, 0), Len: n, Cap: n})
